@@ -95,7 +95,7 @@ NodeAttributeNamespaceInfo traverseTreeForAttributeNamespaces(const XmlNodePtr &
     return nodeAttributeNamespaceInfo;
 }
 
-XmlNamespaceMap traverseTreeForUndefinedNamespaces(const XmlNodePtr &node)
+XmlNamespaceMap traverseTreeForUndefinedNamespaces(const XmlNodePtr &node, bool includeSiblings)
 {
     XmlNamespaceMap undefinedNamespaces;
     auto tempNode = node;
@@ -119,7 +119,7 @@ XmlNamespaceMap traverseTreeForUndefinedNamespaces(const XmlNodePtr &node)
         subUndefineNamespaces.insert(undefinedNamespaces.begin(), undefinedNamespaces.end());
         std::swap(undefinedNamespaces, subUndefineNamespaces);
 
-        tempNode = tempNode->next();
+        tempNode = includeSiblings ? tempNode->next() : nullptr;
     }
 
     return undefinedNamespaces;
